@@ -22,15 +22,16 @@ import (
 type kset uint64
 
 type pState struct {
-	T   kset
-	adv []bool // one flag per active token loop (innermost last)
-	ls  bool
+	T     kset
+	adv   []bool // one flag per active token loop (innermost last)
+	ls    bool
+	fresh bool // no token has been consumed since the line-level dispatcher loop was (re-)entered
 }
 
 func (s *pState) clone() *pState {
-	return &pState{T: s.T, adv: append([]bool(nil), s.adv...), ls: s.ls}
+	return &pState{T: s.T, adv: append([]bool(nil), s.adv...), ls: s.ls, fresh: s.fresh}
 }
-func (s *pState) key() string { return fmt.Sprintf("%v|%v", s.adv, s.ls) }
+func (s *pState) key() string { return fmt.Sprintf("%v|%v|%v", s.adv, s.ls, s.fresh) }
 
 func pNormalize(in []*pState) []*pState {
 	m := map[string]*pState{}
@@ -300,6 +301,7 @@ func (pi *parseInterp) advance(in []*pState) []*pState {
 		n := s.clone()
 		nl, hasNL := pi.kinds["TokenNewline"]
 		n.ls = hasNL && s.T == 1<<uint(nl)
+		n.fresh = false
 		eof := pi.kinds["TokenEOF"]
 		// advancing at EOF yields EOF again: no progress; otherwise any kind may follow
 		if s.T == 1<<uint(eof) {
@@ -453,7 +455,17 @@ func (pi *parseInterp) stmt(st ast.Stmt, in []*pState, fr *pFrame) pFlow {
 		head := pNormalize(entry)
 		var exits []*pState
 		desc := fmt.Sprintf("loop `for %s`", exprStr(pi.c.P.Fset, s.Cond))
+		isTop := false
+		if be, ok := ast.Unparen(s.Cond).(*ast.BinaryExpr); ok && be.Op == token.NEQ && pi.isCurrentType(be.X) && identOf(be.Y).Name == "TokenEOF" {
+			isTop = true
+		}
 		for iter := 0; iter < 40; iter++ {
+			if isTop {
+				for _, h := range head {
+					h.fresh = true
+				}
+				head = pNormalize(head)
+			}
 			t, f := pi.cond(s.Cond, head, fr)
 			body := pi.block(s.Body.List, t, fr)
 			back := pNormalize(append(body.next, body.cont...))
@@ -596,10 +608,10 @@ func (pi *parseInterp) call(m string, call *ast.CallExpr, in []*pState, fr *pFra
 		for _, s := range in {
 			pi.nSkips++
 			desc := fmt.Sprintf("recovery skip #%d in %s (context %s)", ordinalIn(fr.fd, call), pi.fn(fr), strings.Join(pi.stack, ">"))
-			if s.ls && fr.fd.Name.Name != pi.topFn {
+			if s.ls && !s.fresh {
 				pi.findOnce("P-RESYNC", fr, desc, call.Pos(), "the line-skipping recovery routine is called where the current token is already the first token of a fresh line (the previous line was consumed up to and including its line break): the first line of the following entry is reported as a syntax error and swallowed")
 			} else {
-				pi.okOnce("P-RESYNC", fr, desc, call.Pos(), "recovery skips the rest of the damaged line only")
+				pi.okOnce("P-RESYNC", fr, desc, call.Pos(), "recovery skips the rest of the damaged line only (either tokens of the line were consumed and no line break since, or the dispatcher rejects the line's first token)")
 			}
 		}
 	}
